@@ -50,29 +50,26 @@ theorem ops_stablehlo_directions :
     (∀ k ∈ cmpKinds, trustedDir.lookup k = some (upper k)) ∧
     (∀ row ∈ stablehloKinds, (row.2 = .cmp ↔ row.1 ∈ cmpKinds)) := by decide
 
-/- Full statement (FALSE on the pinned tree: `floor ↦ Floot({0})`):
-   theorem ops_xla_client : ∀ row ∈ xlaKinds, xRowOk trustedXla [] row = true -/
-/-- **ops_xla_client** (all rows but `floor`): the template of a kind re-renders to the raw table
-entry and is the call of the xla client builder function the trusted table assigns to the kind, with
-the operands in order (`subtract ↦ Sub({0}, {1})`, `lt ↦ Lt({0}, {1})`, bitwise kinds ↦ the XlaOp
-operator overloads). -/
-theorem ops_xla_client_partial : ∀ row ∈ xlaKinds, row.kind ∉ ["floor"] → xRowOk trustedXla [] row = true := by decide
+/-- **ops_xla_client** (EVERY row; full since the `fix:` commit 1e6d6d5 in /repo): the template of a kind
+re-renders to the raw table entry and is the call of the xla client builder function the trusted table
+assigns to the kind, with the operands in order (`subtract ↦ Sub({0}, {1})`, `lt ↦ Lt({0}, {1})`,
+`floor ↦ Floor({0})`, bitwise kinds ↦ the XlaOp operator overloads). -/
+theorem ops_xla_client : ∀ row ∈ xlaKinds, xRowOk trustedXla [] row = true := by decide
 
-/-- Negation witness (pinned row): `Floot({0})` is not the rendering of `floor` (xla::Floor). -/
-theorem ops_xla_client_floor_witness :
+/-- Regression witness for the defect repaired by 1e6d6d5 (pinned old row): `Floot({0})` is not the
+rendering of `floor` (xla::Floor) — the row check rejects it. -/
+theorem ops_xla_client_floor_regression :
     xRowOk trustedXla [] ⟨"floor", some "Floot({0})", [.lit "Floot(", .arg 0, .lit ")"]⟩ = false := by decide
 
 theorem ops_xla_client_types :
     (∀ row ∈ xlaTypes, trustedXlaTypes.lookup row.1 = some row.2) ∧ (∀ row ∈ xlaConsts, xConstOk row = true) := by decide
 
-/- Full statement (FALSE on the pinned tree: `floor ↦ std::floot({0})`):
-   theorem ops_cpp : ∀ row ∈ cppKinds, xRowOk trustedCpp trustedCppRaw row = true -/
-/-- **ops_cpp** (constant target of the XLA printer; all rows but `floor`): C++ operators and <cmath>
-functions of the kinds, operands in order. -/
-theorem ops_cpp_partial :
-    ∀ row ∈ cppKinds, row.kind ∉ ["floor"] → xRowOk trustedCpp trustedCppRaw row = true := by decide
+/-- **ops_cpp** (constant target of the XLA printer; EVERY row, full since 1e6d6d5): C++ operators and
+<cmath> functions of the kinds, operands in order. -/
+theorem ops_cpp : ∀ row ∈ cppKinds, xRowOk trustedCpp trustedCppRaw row = true := by decide
 
-theorem ops_cpp_floor_witness :
+/-- Regression witness (pinned old row `std::floot({0})`, repaired by 1e6d6d5). -/
+theorem ops_cpp_floor_regression :
     xRowOk trustedCpp trustedCppRaw ⟨"floor", some "std::floot({0})", [.lit "std::floot(", .arg 0, .lit ")"]⟩ = false := by
   decide
 
@@ -84,12 +81,12 @@ theorem ops_cpp_types : ∀ row ∈ cppTypes, trustedCppTypes.lookup row.1 = som
 theorem sTables_ok : STableOK ["positive"] sTables :=
   sTableOK_of_rows _ _ ops_stablehlo_partial ops_stablehlo_consts
 
-theorem xTabs_ok : XTableOK (fun _ => ["floor"]) xTabs where
+theorem xTabs_ok : XTableOK (fun _ => []) xTabs where
   kinds := by
     intro mode
     cases mode
-    · exact ops_xla_client_partial
-    · exact ops_cpp_partial
+    · exact fun row hr _ => ops_xla_client row hr
+    · exact fun row hr _ => ops_cpp row hr
   consts := by
     intro mode
     cases mode
@@ -99,7 +96,7 @@ theorem xTabs_ok : XTableOK (fun _ => ["floor"]) xTabs where
 /-! ## tree_iso -/
 
 /- Full statement (FALSE of the code as written, see `tree_iso_alias_witness` and the `positive` /
-   `floor` rows):  ∀ f o, printS sTables f = .ok o → ∃ ρ, DenS ρ o.pattern (strip f.body)            -/
+   row):  ∀ f o, printS sTables f = .ok o → ∃ ρ, DenS ρ o.pattern (strip f.body)            -/
 /-- **tree_iso (StableHLO)**: for EVERY graph whose reference names are consistent (nodes with the same
 name are the same tree) and that has no `positive` node, with the tables of the tree under test,
 whenever the printer succeeds its pattern denotes exactly the graph: node ↦ the specified operator of
@@ -112,15 +109,15 @@ theorem tree_iso_stablehlo_partial (f : Fn) (hrc : RefConsistent f.body)
   denS_top sTables_ok f (refEnv_ok f.body hrc) hbad o h
 
 /-- **tree_iso (XLA client, with the cpp constant printer and alternative-context constants)**: under
-the same hypotheses (no `floor` node; symbols are printed by their name, which is their reference
-name) the return expression denotes the graph and every assignment `T v = rhs;` defines the node
+the same hypotheses (consistent reference names; symbols are printed by their name, which is their
+reference name; no kind is excluded any more) the return expression denotes the graph and every assignment `T v = rhs;` defines the node
 named `v`: builder call of the kind with operands in order, `ScalarLike(l, value)` attached to the
 node named `l`, compile-time expressions rendered by the C++ operators of their kinds. -/
 theorem tree_iso_xla_client_partial (f : Fn) (hrc : RefConsistent f.body)
     (hsym : ∀ s ∈ f.body.xsubs, ∀ r n fl t, s = .sym r n fl t → n = r)
-    (hbad : ∀ s ∈ f.body.subs, s.opKind ∉ ["floor"]) (o : XOut) (h : printX xTabs f = .ok o) :
+    (o : XOut) (h : printX xTabs f = .ok o) :
     DenX (refEnv f.body) .main o.ret (strip f.body) ∧ StmtsOK (refEnv f.body) o.stmts :=
-  denX_top xTabs_ok f (refEnv_ok f.body hrc) hsym (fun s hs => ⟨hbad s hs, hbad s hs⟩) o h
+  denX_top xTabs_ok f (refEnv_ok f.body hrc) hsym (fun _ _ => ⟨List.not_mem_nil, List.not_mem_nil⟩) o h
 
 /-! ### Concrete graphs (dumped from the real code by the harness; used by witnesses and examples) -/
 
